@@ -166,6 +166,16 @@ fn boundary_values(orig: &BigUint, is_hex: bool, int_max: u64) -> Vec<(String, B
     for k in [2u64, 4, 5, 15, 16, 17, 19, 20, 21, 47, 48, 49, 50, 51, 128, 129] {
         v.push((k.to_string(), BigUint::from(k)));
     }
+    // the original value with extra high limbs (a conversion that keeps only the low 32 / 64 / 128 bits
+    // would read the original back)
+    if is_hex {
+        for (l, sh, m) in [("+2^32", 32u32, 1u8), ("+2^64", 64, 1), ("+3*2^64", 64, 3), ("+2^128", 128, 1), ("+2^192", 192, 1), ("+7*2^248", 248, 7)] {
+            let x = orig + (BigUint::from(m) << sh);
+            if x < vcommon::prime() {
+                v.push((l.to_string(), x));
+            }
+        }
+    }
     if !is_hex {
         v.retain(|(_, x)| *x <= BigUint::from(int_max));
     }
